@@ -123,6 +123,12 @@ func (c *context) lookupParserType(scope *gotypes.Scope) {
 	for _, name := range names {
 		obj := scope.Lookup(name)
 
+		// It must be a type declaration: a variable or function of the parser's
+		// type is not another parser.
+		if _, ok := obj.(*gotypes.TypeName); !ok {
+			continue
+		}
+
 		namedType, ok := obj.Type().(*gotypes.Named)
 		if !ok {
 			continue
